@@ -5,6 +5,7 @@ from engine import site
 
 CONFIGS = ['prod']
 EXPLANATION = (
+    'CODEC: the packed word reads back every field as written — layout, accessors and identities by bit-vector interpretation (C10.SEM / E1 re-evaluated: send / recv unpack and re-pack the clock through them). '
     'SEM (primary): send / recv interpreted over all weak orders of (clock, wall, message) time, node-id equality and drift / exhaustion oracles, compared '
     'with the hybrid-clock rule (time = max, counter +1 on equal time else 0, drift of the message and of the new time refused, exhaustion refused, one sta'
     'te write, wall clock read once). Structural fallback: '
@@ -343,6 +344,17 @@ def check(ctx):
                     WALL = b.name
     # SEM: send / recv summarised by P-ORDER over the order types of (clock time, wall time, message time) and compared with the
     # hybrid-clock algorithm (hlc_abs).  Subsumes H1-H6, which are evaluated only when a construct is not modelled.
+    # CODEC: send / recv take the clock apart and put it together again through the packer and the accessors: the packed word reads
+    # back every field as it was written (= C10.SEM / C10.E1, re-evaluated under C09).  An accessor that clamps a field (round 6, C09f:
+    # fractional() capped "so that Display always re-parses") makes the re-packed clock smaller than the stamp just accepted.
+    import bits_abs
+    import c10
+    n0 = len(ctx.obs)
+    if not bits_abs.check_layout(ctx, facts, 'C09.CODEC'):
+        c10.check_E5(ctx, facts)
+        c10.check_E1(ctx, facts)
+    for o in ctx.obs[n0:]:
+        o.rule = o.rule.replace('C10.E', 'C09.CODEC.E')
     import hlc_abs
     if hlc_abs.check_hlc(ctx, facts, 'C09.SEM'):
         return
